@@ -821,8 +821,13 @@ esl_histogram_SetExpectedTail(ESL_HISTOGRAM *h, double base_val, double pmass,
 
   if (h->expect == NULL)  ESL_ALLOC(h->expect, sizeof(double) * h->nb);
 
-  if ((status = esl_histogram_Score2Bin(h, base_val, &(h->emin))) != eslOK) return status;
-  h->emin += 1;
+  /* <base_val> may lie outside the bins we have allocated (0..nb-1);
+   * <emin> must stay in 0..nb, where nb means no bin is in the tail.
+   */
+  if ((status = esl_histogram_Score2Bin(h, base_val, &b)) != eslOK) return status;
+  if      (b <  0)     h->emin = 0;
+  else if (b >= h->nb) h->emin = h->nb;
+  else                 h->emin = b+1;
   esl_vec_DSet(h->expect, h->emin, 0.);
 
   for (b = h->emin; b < h->nb; b++)
